@@ -326,7 +326,7 @@ func (c *Ctx) writeEvidence(level, explanation string, nOK, distinct, nviol int,
 		"seed":        seed,
 		"level":       level,
 		"coverage":    cov,
-		"assumptions": c.assumptions,
+		"assumptions": nonNil(c.assumptions),
 		"wall_s":      wall,
 		"violations":  nviol,
 	}
@@ -334,4 +334,11 @@ func (c *Ctx) writeEvidence(level, explanation string, nOK, distinct, nviol int,
 	dir := filepath.Join(c.VerifDir, "evidence")
 	_ = os.MkdirAll(dir, 0o755)
 	_ = os.WriteFile(filepath.Join(dir, c.Prop+".json"), b, 0o644)
+}
+
+func nonNil(s []string) []string {
+	if s == nil {
+		return []string{}
+	}
+	return s
 }
